@@ -118,6 +118,17 @@ fn op() -> impl Strategy<Value = Op> {
     ]
 }
 
+fn alias_all(o: Op) -> Op {
+    match o {
+        Op::MintFrom { minter, amt, .. } => Op::MintFrom { minter, to: minter, amt },
+        Op::Transfer { from, amt, .. } => Op::Transfer { from, to: from, amt },
+        Op::Approve { from, amt, exp, .. } => Op::Approve { from, spender: from, amt, exp },
+        Op::TransferFrom { spender, amt, .. } => Op::TransferFrom { spender, from: spender, to: spender, amt },
+        Op::BurnFrom { spender, amt, .. } => Op::BurnFrom { spender, from: spender, amt },
+        other => other,
+    }
+}
+
 struct Model {
     bal: [i128; N],
     allow: BTreeMap<(u8, u8), (i128, u32)>,
@@ -179,7 +190,9 @@ impl Property for C12 {
     }
     fn strategy(&self, tier: Tier) -> BoxedStrategy<Case> {
         let max = tier.pick(40usize, 70usize);
-        (0u16..300, proptest::option::of(idx()), proptest::collection::vec(op(), 0..max))
+        // one op in ten has all its account roles aliased to one account (from == to == spender)
+        let aliased_op = (op(), 0u8..10).prop_map(|(o, r)| if r == 0 { alias_all(o) } else { o });
+        (0u16..300, proptest::option::of(idx()), proptest::collection::vec(aliased_op, 0..max))
             .prop_map(|(start_seq, initial_minter, ops)| Case { start_seq, initial_minter, ops })
             .boxed()
     }
